@@ -5,7 +5,7 @@
 From Coq Require Import List ZArith NArith QArith Qcanon Bool.
 Import ListNotations.
 Require Import UPV.Core.Expr UPV.Core.Eval UPV.Core.Interp UPV.Planning.Problem UPV.Planning.Sem.
-Require Import UPV.Compilers.LayerA_Defs UPV.Compilers.LayerA_Quant UPV.Compilers.SimCheck UPV.Compilers.LayerA_Tcr.
+Require Import UPV.Compilers.LayerA_Defs UPV.Compilers.LayerA_Quant UPV.Compilers.SimCheck UPV.Compilers.LayerA_DcrGoal UPV.Compilers.LayerA_Tcr.
 Require Import UPV.Proofs.LayerA_Tcr_proofs.
 Local Open Scope nat_scope.
 
@@ -67,3 +67,24 @@ Proof.
 Qed.
 Print Assumptions C07_LA_tcr_always_plan.
 (* non-vacuity: Example C06_LA_tcr_always_plan_nonvacuous (Props/C06_tcr.v) instantiates every hypothesis *)
+
+(* PLAN LEVEL for one `sometime phi`, completeness direction (hypotheses as in C06_LA_tcr_sometime_plan, Props/C06_tcr.v):
+   a valid plan of the original problem along which phi holds in some visited state is - unchanged - a valid plan of
+   the compiled problem (the monitoring fluent is true at the end) *)
+Theorem C07_LA_tcr_sometime_plan :
+  forall (smp sub0 : expr -> expr) (mon : nat -> N) (phi : expr) (P : problem) (G : state -> Prop),
+    smp_exact smp -> unique_ids P -> gproblem P = true -> gform phi = true -> gbool P phi = true ->
+    tcr_fresh1 smp (mon 0) P phi = true ->
+    (forall s aid a args t, G s -> lookup_action P aid = Some a -> spec_step false P s a args = Some t -> G t) ->
+    (forall s aid a, G s -> lookup_action P aid = Some a -> reg_ok P s a = true) ->
+    (forall s, G s -> gdef s phi = true) ->
+    forall P', tcr_compile smp sub0 mon [ESometime phi] P = Some P' ->
+    forall s0 s0' pi, G s0 -> agree_off (mon 0) s0 s0' ->
+      s0' (mon 0) [] = Some (VBool (holds false (mk_interp P s0 []) phi)) ->
+      valid_plan false P s0 pi = true -> sometime_seen P phi s0 pi = true -> valid_plan false P' s0' pi = true.
+Proof.
+  intros smp sub0 mon phi P G H1 H2 H3 H4 H5 H6 H7 H8 H9 P1 H10 s0 s0' pi H11 H12 H13 H14 H15.
+  rewrite (tcr_sometime_plan smp sub0 mon phi P G H1 H2 H3 H4 H5 H6 H7 H8 H9 P1 H10 s0 s0' pi H11 H12 H13), H14, H15. reflexivity.
+Qed.
+Print Assumptions C07_LA_tcr_sometime_plan.
+(* non-vacuity: Example C06_LA_tcr_sometime_plan_nonvacuous (Props/C06_tcr.v) instantiates every hypothesis *)
